@@ -1,6 +1,7 @@
 """Merge /verif/findings/*.json into known_findings.json, skipping keys listed in FIXED (fixed by commits in /repo)."""
 import glob, json, subprocess, sys
 FIXED = {  # key -> (property, commit subject prefix)
+  "C13:reset_data:stale-nan-efc-J-rows": ("C13", "fix: reset_data clears the constraint Jacobian"),
   "C40:flex_geom_vertex:normal-reversed": ("C40", "fix: 1D flex vertex contacts point from the geom"),
   "C07:TOUCH:cutoff-ignored": ("C07", "fix: touch sensors apply their cutoff"),
   "C07:LIMITSENSOR:joint-tendon-id-collision": ("C07", "fix: joint-limit sensors read joint-limit rows only"),
